@@ -173,6 +173,7 @@ VH_NOINSTR int main(int argc, char** argv) {
     vh_reg_fiber(vh_fibers[t], t);
     fiber_detach(vh_fibers[t]);
   }
+  vr_note("spawn %d", vh_script.nfibers); /* for the runtime model: all harness fibers exist now */
   for (int t = 0; t < vh_script.nfibers; t++) fiber_manager_schedule(fiber_manager_get(), vh_fibers[t]);
 
   /* the clock */
